@@ -4,6 +4,7 @@
 CONSTANTS
   RawT = {"c", "b", "B", "s", "h", "H", "i", "I", "f", "l", "L", "P", "q", "Q", "d"}
   ArrN = {1, 2, 3}
+  NestN = {1, 2, 3}
   Ords = {"", "<", ">"}
   DefOrds = {"", ">"}
   DefKinds = {"struct", "packed", "union"}
@@ -19,5 +20,6 @@ CONSTANTS
   Mode = "gen"
 INIT Init
 NEXT Next
+INVARIANT RoundTrip
 CONSTRAINT Emit
 CHECK_DEADLOCK FALSE
